@@ -653,7 +653,10 @@ func diffSlots(c []int) string {
 // decode into used receivers: a decode target that already holds a value (a reused
 // variable, a slice element, an entity reused in a loop) must end up exactly as a fresh one.
 func UsedReceivers() *core.Family {
-	docs := []string{`{}`, `{"a":1}`, `{"b":{"__extn":{"fn":"decimal","arg":"1.5"}},"c":[1,2]}`, `[]`, `[1]`, `[true,"x",[2]]`}
+	// the last three are invalid half way through: a failed decode must not leave anything behind
+	// that a later successful decode into the same variable shows
+	docs := []string{`{}`, `{"a":1}`, `{"b":{"__extn":{"fn":"decimal","arg":"1.5"}},"c":[1,2]}`, `[]`, `[1]`, `[true,"x",[2]]`,
+		`{"z":1,"y":{"__extn":{"fn":"nope","arg":"x"}}}`, `[7,8,{"__entity":{"type":1}}]`, `{"q":[1,2,9223372036854775808]}`}
 	entDocs := []string{
 		`{"uid":{"type":"U","id":"a"},"parents":[],"attrs":{},"tags":{}}`,
 		`{"uid":{"type":"U","id":"b"},"parents":[{"type":"G","id":"g"}],"attrs":{"k":1},"tags":{"t":"x"}}`,
@@ -681,9 +684,9 @@ func UsedReceivers() *core.Family {
 						t.Fail("used-receiver:Record:earlier-copy-changed", in, keptS, kept.String())
 					}
 					ef := json.Unmarshal([]byte(second), &fresh)
-					if e1 == nil && (e2 == nil) != (ef == nil) {
+					if (e2 == nil) != (ef == nil) {
 						t.Fail("used-receiver:Record:error-differs", in, fmt.Sprint(ef), fmt.Sprint(e2))
-					} else if e1 == nil && ef == nil && (!used.Equal(fresh) || used.Len() != fresh.Len() || used.String() != fresh.String()) {
+					} else if ef == nil && (!used.Equal(fresh) || used.Len() != fresh.Len() || used.String() != fresh.String()) {
 						t.Fail("used-receiver:Record", in, fresh.String(), used.String())
 					}
 				}
@@ -696,9 +699,9 @@ func UsedReceivers() *core.Family {
 						t.Fail("used-receiver:Set:earlier-copy-changed", in, keptS, kept.String())
 					}
 					ef := json.Unmarshal([]byte(second), &fresh)
-					if e1 == nil && (e2 == nil) != (ef == nil) {
+					if (e2 == nil) != (ef == nil) {
 						t.Fail("used-receiver:Set:error-differs", in, fmt.Sprint(ef), fmt.Sprint(e2))
-					} else if e1 == nil && ef == nil && (!used.Equal(fresh) || used.Len() != fresh.Len() || used.String() != fresh.String()) {
+					} else if ef == nil && (!used.Equal(fresh) || used.Len() != fresh.Len() || used.String() != fresh.String()) {
 						t.Fail("used-receiver:Set", in, fresh.String(), used.String())
 					}
 				}
@@ -711,9 +714,9 @@ func UsedReceivers() *core.Family {
 						t.Fail("used-receiver:Value:earlier-copy-changed", in, keptS, fmt.Sprint(kept))
 					}
 					ef := types.UnmarshalJSON([]byte(second), &fresh)
-					if e1 == nil && (e2 == nil) != (ef == nil) {
+					if (e2 == nil) != (ef == nil) {
 						t.Fail("used-receiver:Value:error-differs", in, fmt.Sprint(ef), fmt.Sprint(e2))
-					} else if e1 == nil && ef == nil && fresh != nil && (used == nil || !used.Equal(fresh)) {
+					} else if ef == nil && fresh != nil && (used == nil || !used.Equal(fresh)) {
 						t.Fail("used-receiver:Value", in, fmt.Sprint(fresh), fmt.Sprint(used))
 					}
 				}
